@@ -395,6 +395,7 @@ def _client_ctx():
 
 class Histories(Family):
     """random histories over 3 hosts x 2 ports x 4 certificates (+ loader failures, near-miss fingerprints)"""
+    realtime = True     # runs on the wall clock (sockets, threads): a failure is re-run once before it counts (core.run_family)
     name = "histories"
     quick_n = 1000
     thorough_n = 4000
@@ -902,6 +903,7 @@ class Configured(Histories):
 class SmallScope(Family):
     """EVERY history of length <= L over 2 hosts (one port) x 2 certificates; L = 2 in the quick tier, 4 in thorough.
     The enumeration is split over the shards with Family.share (never cut); one GeminiClient object per history."""
+    realtime = True     # runs on the wall clock (sockets, threads): a failure is re-run once before it counts (core.run_family)
     name = "small_scope"
     quick_n = 96           # 9 + 81 = 90 histories of length <= 2 (+ a few random ones of length 3)
     thorough_n = 7400      # 9 + 81 + 729 + 6561 = 7380 histories of length <= 4
